@@ -340,10 +340,19 @@ def oracle_check(ctx, src, line, col, fuzzy, frag, comps, how):
     case = {'source': src, 'line': line, 'column': col, 'fuzzy': fuzzy}
     seen = set()
     prev = None
+    base_case = case
     for c in comps:
         name, complete, nws, plen = comp_tuple(c)
         obs = {'name': name, 'complete': complete, 'name_with_symbols': nws, 'prefix_length': plen,
                'fragment': frag}
+        case = base_case
+        if c.type == 'param' and frag.startswith('_') and \
+                (is_subseq(frag.lower(), ('__' + name).lower()) if fuzzy
+                 else ('__' + name).lower().startswith(frag.lower())):
+            # root cause: a parameter spelled `__x` is shown under its public name `x` (typeshed's
+            # positional-only convention, BaseTreeParamName.get_public_name) although the typed
+            # fragment is a prefix of the real spelling
+            case = dict(base_case, shape='dunder-parameter-shown-under-public-name')
         if fuzzy:
             if not is_subseq(frag.lower(), name.lower()):
                 ctx.fail('oracle', 'fuzzy completion is not a supersequence of the fragment', case,
@@ -662,6 +671,8 @@ def stream_known(ctx):
         ('İxyz = 1\nİx', 2, 2, 'İx'),
         ('İİab = 1\nİİ', 2, 2, 'İİ'),
     ]
+    # a parameter spelled `__x` completes under the name `x` (known finding; kept alive here)
+    probes.append(('def fn(__baz, xs):\n    __ba', 2, 8, '__ba'))
     for src, line, col, frag in probes:
         comps = jedi.Script(src).complete(line, col)
         oracle_check(ctx, src, line, col, False, frag, comps,
